@@ -44,7 +44,8 @@ Fresh(s) == srv[s] = "none" /\ cli[s] = "none" /\ \A t \in Slots : t < s => srv[
 
 \* server hook verdicts: "ok"; "reject"; "panic" (the hook panics: the same as a rejection); "idmod" (the hooks succeed, and on the
 \* way one of them assigns a session id of its own and a later one wraps the connection with ModifySocket)
-SrvRej(sv) == sv \in {"reject", "panic"}
+\* "idreject": like idmod, but a later hook of the chain rejects the connection (the session was already given an id)
+SrvRej(sv) == sv \in {"reject", "panic", "idreject"}
 Establish(s, p, sv, cv) ==
   /\ Fresh(s) /\ ~sclosed /\ ~cclosed
   /\ srv' = [srv EXCEPT ![s] = IF SrvRej(sv) THEN "rej" ELSE IF cv = "reject" THEN "down" ELSE "up"]
@@ -81,7 +82,7 @@ PeerClose(side) ==   \* Peer.Close(): every session of that peer is closed, so e
   /\ UNCHANGED path
   /\ Rec("peerclose" \o side, 0, "none", "ok", "ok", "ended")
 
-Next == \/ \E s \in Slots, p \in Paths, sv \in {"ok", "reject", "panic", "idmod"}, cv \in {"ok", "reject"} : Establish(s, p, sv, cv)
+Next == \/ \E s \in Slots, p \in Paths, sv \in {"ok", "reject", "panic", "idmod", "idreject"}, cv \in {"ok", "reject"} : Establish(s, p, sv, cv)
         \/ \E s \in Slots : DialClosed(s) \/ End("closecli", s) \/ End("closesrv", s) \/ End("cut", s) \/ Call(s)
         \/ PeerClose("srv") \/ PeerClose("cli")
 Spec == Init /\ [][Next]_vars
